@@ -102,7 +102,7 @@ theorem valsOK_sub (vals sub : List Str) (h : ValsOK vals) (hs : ∀ s ∈ sub, 
 
 /-- **S4 at every recursion depth** every grapheme it produces is well-formed for printing and semantically consistent -/
 theorem convertRepsAux_inv (cfg : Config) (hmr : 1 ≤ cfg.minRep) : ∀ (fuel : Nat) (ss : List Str) (res : Cluster),
-    ValsOK ss → ss.length ≤ 1000 → convertRepsAux cfg fuel (ss.map Grapheme.ofStr) = some res → ∀ g ∈ res, GOK g ∧ GSem g := by
+    ValsOK ss → ss.length ≤ 1000 → convertRepsAux cfg fuel (ss.map Grapheme.ofStr) = some res → ∀ g ∈ res, GOK g ∧ GSem g ∧ g.min = g.max := by
   intro fuel
   induction fuel with
   | zero => intro ss res _ _ h; simp [convertRepsAux] at h
@@ -134,7 +134,7 @@ theorem convertRepsAux_inv (cfg : Config) (hmr : 1 ≤ cfg.minRep) : ∀ (fuel :
         obtain ⟨as, hasne, hasok, hchr, rfl⟩ := hv s hs
         simp only [Grapheme.ofStr, Grapheme.chars, Grapheme.reps, Grapheme.min, Grapheme.max, List.map_cons, List.map_nil,
           convertRepsAux_single, Option.getD_none]
-        constructor
+        refine ⟨?_, ?_, (by first | rfl | trivial)⟩
         · simp only [GOK]
           refine ⟨⟨[as], ⟨by simp, ?_⟩, rfl⟩, Nat.le_refl _, Or.inl ⟨(by first | rfl | trivial), (by first | rfl | trivial), (by first | rfl | trivial), (by first | rfl | trivial)⟩⟩
           intro x hx; simp at hx; subst hx; exact ⟨hasne, hasok⟩
@@ -154,7 +154,7 @@ theorem convertRepsAux_inv (cfg : Config) (hmr : 1 ≤ cfg.minRep) : ∀ (fuel :
         cases hf : convertRepsAux cfg f (sub.map Grapheme.ofStr) with
         | none =>
           simp only [Option.getD_none]
-          constructor
+          refine ⟨?_, ?_, (by first | rfl | trivial)⟩
           · simp only [GOK]
             exact ⟨⟨ass, hassok, hsubeq⟩, by omega, Or.inr ⟨hcounted, hn1000, Or.inl (by first | rfl | trivial)⟩⟩
           · simp only [GSem]
@@ -183,11 +183,11 @@ theorem convertRepsAux_inv (cfg : Config) (hmr : 1 ≤ cfg.minRep) : ∀ (fuel :
               intro hl
               have := iht (fun r hr => hl r (List.mem_cons_of_mem _ hr))
               exact ⟨⟨(hl a List.mem_cons_self).1, this.1⟩, ⟨(hl a List.mem_cons_self).2, this.2⟩⟩
-          obtain ⟨hrl, hsl⟩ := hgokl reps hrec
-          constructor
+          obtain ⟨hrl, hsl⟩ := hgokl reps (fun r hr => ⟨(hrec r hr).1, (hrec r hr).2.1⟩)
+          refine ⟨?_, ?_, (by first | rfl | trivial)⟩
           · simp only [GOK]
             refine ⟨⟨ass, hassok, hsubeq⟩, by omega, Or.inr ⟨hcounted, hn1000, Or.inr ⟨h2, hrne, hrl⟩⟩⟩
           · simp only [GSem]
-            exact ⟨valsOK_chr sub hvsub, Nat.le_refl _, Or.inr ⟨hspec.1, hsl⟩⟩
+            exact ⟨valsOK_chr sub hvsub, Nat.le_refl _, Or.inr ⟨hspec.1, hsl, fun r hr => (hrec r hr).2.2⟩⟩
 
 end Grexv
